@@ -278,20 +278,158 @@ theorem weight_brRun (Bs : Backend Q P) (Bd : Backend V P) (dm : Q → V) (L : D
           rw [hst, mul_smul, L.meas_sv, map_smul]
           rfl
 
+/-! ## Feed-forward, position-sensitive: a gate must not read a bit written by an EARLIER measurement -/
+
+/-- `FF m ops`: with `m` the bits written so far, no conditioned gate of `ops` reads a bit written before it -/
+def FF : List Int → List Op → Prop
+  | _, [] => True
+  | m, .gate g :: ops => (∀ cs, g.cc = some cs → ∀ x ∈ cs, x ∉ m) ∧ FF m ops
+  | m, .meas _ store :: ops => FF (store.toList ++ m) ops
+
+theorem FF_of_noFeedForward (reads : Int → Prop) : ∀ (ops : List Op) (m : List Int),
+    NoFeedForward ops reads → (∀ s ∈ m, ¬ reads s) → FF m ops := by
+  intro ops
+  induction ops with
+  | nil => intro m _ _; trivial
+  | cons op ops ih =>
+    intro m hff hm
+    have hff' : NoFeedForward ops reads :=
+      ⟨fun g cs hg => hff.gates g cs (List.mem_cons_of_mem _ hg),
+       fun t s hmm => hff.stores t s (List.mem_cons_of_mem _ hmm)⟩
+    cases op with
+    | gate g =>
+      refine ⟨?_, ih m hff' hm⟩
+      intro cs hcc x hx hxm
+      exact hm x hxm (hff.gates g cs (List.mem_cons_self ..) hcc x hx).1
+    | meas t store =>
+      apply ih _ hff'
+      intro s hs
+      rcases List.mem_append.mp hs with h | h
+      · cases store with
+        | none => simp at h
+        | some s' =>
+          simp only [Option.toList_some, List.mem_singleton] at h
+          subst h
+          exact (hff.stores t s (List.mem_cons_self ..)).1
+      · exact hm s h
+
+/-- **Branch weight = projector chain (position-sensitive version).** -/
+theorem weight_brRun_ff (Bs : Backend Q P) (Bd : Backend V P) (dm : Q → V) (L : DmLink Bs Bd dm)
+    (bits0 : Option (List Int)) (nq ncb : Nat) :
+    ∀ (ops : List Op) (b : Br Q P) (m : List Int), FF m ops → (∀ op ∈ ops, op.Valid nq ncb) →
+      b.bits.isSome = bits0.isSome → (∀ x, 0 ≤ x → x ∉ m → readBit b.bits x = readBit bits0 x) →
+      b.rest.length = numMeasOps ops →
+      weight dm (brRun Bs b ops) = wRun L.G L.Pi (fun g => firesB g bits0) ops b.rest (weight dm b) := by
+  intro ops
+  induction ops with
+  | nil => intro b m _ _ _ _ _; rfl
+  | cons op ops ih =>
+    intro b m hff hvalid hsome hagree hlen
+    have hvalid' : ∀ op' ∈ ops, op'.Valid nq ncb := fun o ho => hvalid o (List.mem_cons_of_mem _ ho)
+    have hstep : brRun Bs b (op :: ops) = brRun Bs (brStep Bs b op) ops := by simp [brRun]
+    rw [hstep]
+    cases op with
+    | gate g =>
+      obtain ⟨hg, hff'⟩ := hff
+      rw [numMeasOps_gate] at hlen
+      have hgv := hvalid (.gate g) (List.mem_cons_self ..)
+      have hfire : firesB g b.bits = firesB g bits0 :=
+        firesB_congr g b.bits bits0 hsome (fun cs hcc x hx =>
+          hagree x ((hgv cs hcc).1 x hx).1 (hg cs hcc x hx))
+      simp only [wRun]
+      cases hst : b.st with
+      | none =>
+        have hb' : brStep Bs b (.gate g) = b := by simp [brStep, hst]
+        rw [hb', ih b m hff' hvalid' hsome hagree hlen]
+        have hw0 : weight dm b = 0 := by simp [weight, hst, dmOpt]
+        rw [hw0]
+        simp
+      | some q =>
+        by_cases hf : firesB g bits0 = true
+        · have hb' : brStep Bs b (.gate g) = { b with st := some (Bs.gate g.code g.qubits q) } := by
+            simp [brStep, hst, hfire, hf]
+          rw [hb', ih { b with st := some (Bs.gate g.code g.qubits q) } m hff' hvalid' hsome hagree hlen]
+          simp only [hf, ↓reduceIte]
+          congr 1
+          show b.prob • dm (Bs.gate g.code g.qubits q) = L.G g.code g.qubits (b.prob • dmOpt dm b.st)
+          rw [hst, L.gate_sv, map_smul]
+          rfl
+        · have hb' : brStep Bs b (.gate g) = b := by simp [brStep, hst, hfire, hf]
+          rw [hb', ih b m hff' hvalid' hsome hagree hlen]
+          simp [hf]
+    | meas t store =>
+      have hff' : FF (store.toList ++ m) ops := hff
+      rw [numMeasOps_meas] at hlen
+      have hmv := hvalid (.meas t store) (List.mem_cons_self ..)
+      cases hr : b.rest with
+      | nil => rw [hr] at hlen; simp at hlen
+      | cons i rest =>
+        simp only [wRun]
+        cases hst : b.st with
+        | none =>
+          have hb' : brStep Bs b (.meas t store) = b := by simp [brStep, hst]
+          have hw0 : weight dm b = 0 := by simp [weight, hst, dmOpt]
+          rw [hb', brRun_dead Bs b hst, hw0, map_zero, wRun_zero]
+        | some q =>
+          have hb' : brStep Bs b (.meas t store) =
+              { bits := writeBit b.bits store i, st := (Bs.meas t q i.toNat).2,
+                prob := b.prob * (Bs.meas t q i.toNat).1, rest := rest } := by
+            simp [brStep, hst, hr]
+          rw [hb']
+          have hsome' : (writeBit b.bits store i).isSome = bits0.isSome := by rw [writeBit_isSome, hsome]
+          have hagree' : ∀ x, 0 ≤ x → x ∉ store.toList ++ m →
+              readBit (writeBit b.bits store i) x = readBit bits0 x := by
+            intro x hx0 hxm
+            rw [readBit_writeBit b.bits store i x hx0, hagree x hx0 (fun h => hxm (List.mem_append_right _ h))]
+            intro s hs
+            subst hs
+            refine ⟨(hmv.2 s rfl).1, fun h => hxm ?_⟩
+            subst h
+            simp
+          rw [ih _ (store.toList ++ m) hff' hvalid' hsome' hagree' (by rw [hr] at hlen; simpa using hlen)]
+          congr 1
+          show (b.prob * (Bs.meas t q i.toNat).1) • dmOpt dm (Bs.meas t q i.toNat).2
+            = L.Pi t i.toNat (b.prob • dmOpt dm b.st)
+          rw [hst, mul_smul, L.meas_sv, map_smul]
+          rfl
+
 /-! ## The model's density-matrix run -/
+
+/-- the set `_mixed_cbits` after the measurements seen so far wrote `m` -/
+def mixedOf (cfg : Cfg) (m : List Int) : List Int := if cfg.dmRefuse then m else []
+
+theorem noteMixed_mixedOf (cfg : Cfg) (store : Option Int) (m : List Int) :
+    noteMixed cfg store (mixedOf cfg m) = mixedOf cfg (store.toList ++ m) := by
+  unfold noteMixed mixedOf
+  cases store with
+  | none => simp
+  | some s => by_cases h : cfg.dmRefuse <;> simp [h]
+
+theorem refuses_false_of (cfg : Cfg) (g : Gate) (m : List Int) (h : ∀ cs, g.cc = some cs → ∀ x ∈ cs, x ∉ m) :
+    refuses cfg g (mixedOf cfg m) = false := by
+  unfold refuses mixedOf
+  by_cases hd : cfg.dmRefuse
+  · simp only [hd, ↓reduceIte, Bool.true_and]
+    cases hcc : g.cc with
+    | none => rfl
+    | some cs =>
+      simp only [List.any_eq_false, List.contains_eq_mem, decide_eq_true_eq]
+      intro x hx; exact h cs hcc x hx
+  · simp [hd]
 
 omit [AddCommMonoid V] [Module P V] in
 theorem coreStep_dm_gate (Bd : Backend V P) (cfg : Cfg) (c : Circuit) (k : Core V P) (rng : List Int) (g : Gate) (v : V)
     (hop : c.ops[k.f.opIndex]? = some (.gate g)) (hv : (Op.gate g).Valid c.nq c.ncb) (hb : BitsOk c.ncb k.bits)
-    (hq : k.f.st = some v) :
+    (hq : k.f.st = some v) (href : refuses cfg g k.f.mixed = false) :
     (coreStep Bd cfg .dm c k rng).err = none ∧
     (coreStep Bd cfg .dm c k rng).core.f.opIndex = k.f.opIndex + 1 ∧
     (coreStep Bd cfg .dm c k rng).core.bits = k.bits ∧
-    (coreStep Bd cfg .dm c k rng).core.f.st = some (if firesB g k.bits then Bd.gate g.code g.qubits v else v) := by
+    (coreStep Bd cfg .dm c k rng).core.f.st = some (if firesB g k.bits then Bd.gate g.code g.qubits v else v) ∧
+    (coreStep Bd cfg .dm c k rng).core.f.mixed = k.f.mixed := by
   obtain ⟨bv, hbv⟩ := fires_ok g c.nq c.ncb k.bits hv hb
   have hfb : firesB g k.bits = bv := by unfold firesB; rw [hbv]
   unfold coreStep
-  simp only [hop]
+  simp only [hop, href, Bool.false_eq_true, ↓reduceIte]
   cases bv with
   | false => simp [hbv, hfb, hq]
   | true => simp [hbv, hfb, hq]
@@ -303,7 +441,8 @@ theorem coreStep_dm_meas (Bd : Backend V P) (cfg : Cfg) (c : Circuit) (k : Core 
     (coreStep Bd cfg .dm c k rng).err = none ∧
     (coreStep Bd cfg .dm c k rng).core.f.opIndex = k.f.opIndex + 1 ∧
     (coreStep Bd cfg .dm c k rng).core.bits = k.bits ∧
-    (coreStep Bd cfg .dm c k rng).core.f.st = some (Bd.dephase t v) := by
+    (coreStep Bd cfg .dm c k rng).core.f.st = some (Bd.dephase t v) ∧
+    (coreStep Bd cfg .dm c k rng).core.f.mixed = noteMixed cfg store k.f.mixed := by
   unfold coreStep
   have : ¬ t ≥ c.nq := by omega
   simp [hop, hq, this]
@@ -324,15 +463,18 @@ theorem coreStep_dm_form [Mul P] (Bd : Backend V P) (cfg : Cfg) (c : Circuit) (k
       | some q => by_cases ht : t ≥ c.nq <;> simp [ht]
     | gate g =>
       simp only
-      cases hf : fires g k.bits with
-      | error e => rfl
-      | ok bv =>
-        cases bv with
-        | false => rfl
-        | true =>
-          cases hst : k.f.st with
-          | none => rfl
-          | some q => rfl
+      by_cases hr : refuses cfg g k.f.mixed = true
+      · simp only [hr, ↓reduceIte]
+      · simp only [hr, Bool.false_eq_true, ↓reduceIte]
+        cases hf : fires g k.bits with
+        | error e => rfl
+        | ok bv =>
+          cases bv with
+          | false => rfl
+          | true =>
+            cases hst : k.f.st with
+            | none => rfl
+            | some q => rfl
 
 omit [Semiring P] [AddCommMonoid V] [Module P V] in
 /-- density-matrix mode never touches `_probability` -/
@@ -350,69 +492,137 @@ theorem coreStep_dm_prob [Mul P] (Bd : Backend V P) (cfg : Cfg) (c : Circuit) (k
       | some q => by_cases ht : t ≥ c.nq <;> simp [ht]
     | gate g =>
       simp only
-      cases hf : fires g k.bits with
-      | error e => rfl
-      | ok bv =>
-        cases bv with
-        | false => rfl
-        | true =>
-          cases hst : k.f.st with
-          | none => rfl
-          | some q => rfl
+      by_cases hr : refuses cfg g k.f.mixed = true
+      · simp only [hr, ↓reduceIte]
+      · simp only [hr, Bool.false_eq_true, ↓reduceIte]
+        cases hf : fires g k.bits with
+        | error e => rfl
+        | ok bv =>
+          cases bv with
+          | false => rfl
+          | true =>
+            cases hst : k.f.st with
+            | none => rfl
+            | some q => rfl
 
-/-- the model's density-matrix loop computes `dmRun` with the firing decisions taken on the (never changing) bits -/
+/-- the model's density-matrix loop computes `dmRun` with the firing decisions taken on the (never changing) bits,
+as long as no gate reads a bit written by an earlier measurement -/
 theorem coreRunLoop_dm (Bs : Backend Q P) (Bd : Backend V P) (dm : Q → V) (L : DmLink Bs Bd dm) (cfg : Cfg)
     (c : Circuit) (hc : c.Valid) :
-    ∀ (ops : List Op) (k : Core V P) (rng : List Int) (v : V),
-      c.ops.drop k.f.opIndex = ops → BitsOk c.ncb k.bits → k.f.st = some v →
+    ∀ (ops : List Op) (k : Core V P) (rng : List Int) (v : V) (m : List Int),
+      c.ops.drop k.f.opIndex = ops → BitsOk c.ncb k.bits → k.f.st = some v → FF m ops →
+      k.f.mixed = mixedOf cfg m →
       (coreRunLoop Bd cfg .dm c ops.length k rng).err = none ∧
       (coreRunLoop Bd cfg .dm c ops.length k rng).core.f.st =
         some (dmRun L.G L.Pi (fun g => firesB g k.bits) ops v) ∧
       (coreRunLoop Bd cfg .dm c ops.length k rng).core.f.prob = k.f.prob := by
   intro ops
   induction ops with
-  | nil => intro k rng v _ _ hq; exact ⟨rfl, hq, rfl⟩
+  | nil => intro k rng v m _ _ hq _ _; exact ⟨rfl, hq, rfl⟩
   | cons op ops ih =>
-    intro k rng v hdrop hb hq
+    intro k rng v m hdrop hb hq hff hmix
     obtain ⟨hget, hdrop'⟩ := getElem?_of_drop c.ops k.f.opIndex op ops hdrop
     have hvalid : op.Valid c.nq c.ncb := hc op (List.mem_of_getElem? hget)
-    have hstep : ∃ v', (coreStep Bd cfg .dm c k rng).err = none ∧
+    have hstep : ∃ v' m', (coreStep Bd cfg .dm c k rng).err = none ∧
         (coreStep Bd cfg .dm c k rng).core.f.opIndex = k.f.opIndex + 1 ∧
         (coreStep Bd cfg .dm c k rng).core.bits = k.bits ∧
         (coreStep Bd cfg .dm c k rng).core.f.st = some v' ∧
         (coreStep Bd cfg .dm c k rng).core.f.prob = k.f.prob ∧
+        FF m' ops ∧ (coreStep Bd cfg .dm c k rng).core.f.mixed = mixedOf cfg m' ∧
         dmRun L.G L.Pi (fun g => firesB g k.bits) (op :: ops) v = dmRun L.G L.Pi (fun g => firesB g k.bits) ops v' := by
       cases op with
       | gate g =>
-        obtain ⟨h1, h2, h3, h4⟩ := coreStep_dm_gate Bd cfg c k rng g v hget hvalid hb hq
-        refine ⟨_, h1, h2, h3, h4, ?_, ?_⟩
-        · exact coreStep_dm_prob Bd cfg c k rng
-        · simp only [dmRun, L.gate_dm]
+        obtain ⟨hg, hff'⟩ := hff
+        have href : refuses cfg g k.f.mixed = false := by rw [hmix]; exact refuses_false_of cfg g m hg
+        obtain ⟨h1, h2, h3, h4, h5⟩ := coreStep_dm_gate Bd cfg c k rng g v hget hvalid hb hq href
+        refine ⟨_, m, h1, h2, h3, h4, coreStep_dm_prob Bd cfg c k rng, hff', by rw [h5, hmix], ?_⟩
+        simp only [dmRun, L.gate_dm]
       | meas t store =>
-        obtain ⟨h1, h2, h3, h4⟩ := coreStep_dm_meas Bd cfg c k rng t store v hget hvalid.1 hq
-        refine ⟨_, h1, h2, h3, h4, ?_, ?_⟩
-        · exact coreStep_dm_prob Bd cfg c k rng
+        obtain ⟨h1, h2, h3, h4, h5⟩ := coreStep_dm_meas Bd cfg c k rng t store v hget hvalid.1 hq
+        refine ⟨_, store.toList ++ m, h1, h2, h3, h4, coreStep_dm_prob Bd cfg c k rng, hff, ?_, ?_⟩
+        · rw [h5, hmix, noteMixed_mixedOf]
         · simp only [dmRun, L.dephase_dm]
-    obtain ⟨v', he, hidx, hbits, hst, hprob, hdm⟩ := hstep
+    obtain ⟨v', m', he, hidx, hbits, hst, hprob, hff', hmix', hdm⟩ := hstep
     simp only [List.length_cons]
     unfold coreRunLoop
-    generalize ho : coreStep Bd cfg .dm c k rng = o at he hidx hbits hst hprob
+    generalize ho : coreStep Bd cfg .dm c k rng = o at he hidx hbits hst hprob hmix'
     simp only [he, hst, Option.isNone_some, Bool.false_eq_true, ↓reduceIte]
-    have := ih o.core o.rng v' (by rw [hidx]; exact hdrop') (by rw [hbits]; exact hb) hst
+    have := ih o.core o.rng v' m' (by rw [hidx]; exact hdrop') (by rw [hbits]; exact hb) hst hff' hmix'
     rw [hbits] at this
     exact ⟨this.1, by rw [this.2.1, hdm], by rw [this.2.2, hprob]⟩
 
-/-- **dm_eq_mixture (partial: no feed-forward).** For a well-formed circuit none of whose conditions reads a measured
-bit, the density-matrix run of the model from `|ψ⟩⟨ψ|` ends — without exception, with probability `1` — in
-`Σ_r p_r · |φ_r⟩⟨φ_r|` over all records `r`, where `(φ_r, p_r)` is the branch of `r` (pruned branches weigh `0`). -/
-theorem coreRun_dm_eq_mixture (Bs : Backend Q P) (Bd : Backend V P) (dm : Q → V) (L : DmLink Bs Bd dm)
-    (cfg : Cfg) (c : Circuit) (hc : c.Valid) (reads : Int → Prop) (hff : NoFeedForward c.ops reads)
+theorem refuses_true_of (cfg : Cfg) (hd : cfg.dmRefuse = true) (g : Gate) (m : List Int)
+    (h : ¬ ∀ cs, g.cc = some cs → ∀ x ∈ cs, x ∉ m) : refuses cfg g (mixedOf cfg m) = true := by
+  unfold refuses mixedOf
+  simp only [hd, ↓reduceIte, Bool.true_and]
+  cases hcc : g.cc with
+  | none => exact absurd (fun cs hc => by rw [hcc] at hc; cases hc) h
+  | some cs =>
+    simp only [List.any_eq_true, List.contains_eq_mem, decide_eq_true_eq]
+    by_contra hne
+    apply h
+    intro cs' hc x hx hxm
+    rw [hcc] at hc
+    cases hc
+    exact hne ⟨x, hx, hxm⟩
+
+/-- **With fix C02-3 a feed-forward circuit is refused**: if some gate reads a bit written by an earlier
+measurement, the density-matrix run raises `NotImplementedError` (instead of deciding the gate on the stale bit). -/
+theorem coreRunLoop_dm_refuses (Bd : Backend V P) (cfg : Cfg) (hd : cfg.dmRefuse = true) (c : Circuit) (hc : c.Valid) :
+    ∀ (ops : List Op) (k : Core V P) (rng : List Int) (v : V) (m : List Int),
+      c.ops.drop k.f.opIndex = ops → BitsOk c.ncb k.bits → k.f.st = some v → ¬ FF m ops →
+      k.f.mixed = mixedOf cfg m →
+      (coreRunLoop Bd cfg .dm c ops.length k rng).err = some .notimpl := by
+  intro ops
+  induction ops with
+  | nil => intro k rng v m _ _ _ hff _; exact absurd trivial hff
+  | cons op ops ih =>
+    intro k rng v m hdrop hb hq hff hmix
+    obtain ⟨hget, hdrop'⟩ := getElem?_of_drop c.ops k.f.opIndex op ops hdrop
+    have hvalid : op.Valid c.nq c.ncb := hc op (List.mem_of_getElem? hget)
+    simp only [List.length_cons]
+    unfold coreRunLoop
+    cases op with
+    | gate g =>
+      by_cases hg : ∀ cs, g.cc = some cs → ∀ x ∈ cs, x ∉ m
+      · have hff' : ¬ FF m ops := fun h => hff ⟨hg, h⟩
+        have href : refuses cfg g k.f.mixed = false := by rw [hmix]; exact refuses_false_of cfg g m hg
+        obtain ⟨h1, h2, h3, h4, h5⟩ := coreStep_dm_gate Bd cfg c k rng g v hget hvalid hb hq href
+        generalize ho : coreStep Bd cfg .dm c k rng = o at h1 h2 h3 h4 h5
+        simp only [h1, h4, Option.isNone_some, Bool.false_eq_true, ↓reduceIte]
+        exact ih o.core o.rng _ m (by rw [h2]; exact hdrop') (by rw [h3]; exact hb) h4 hff' (by rw [h5, hmix])
+      · have href : refuses cfg g k.f.mixed = true := by rw [hmix]; exact refuses_true_of cfg hd g m hg
+        have : (coreStep Bd cfg .dm c k rng).err = some .notimpl := by
+          unfold coreStep; simp only [hget, href, ↓reduceIte]
+        simp only [this]
+    | meas t store =>
+      have hff' : ¬ FF (store.toList ++ m) ops := hff
+      obtain ⟨h1, h2, h3, h4, h5⟩ := coreStep_dm_meas Bd cfg c k rng t store v hget hvalid.1 hq
+      generalize ho : coreStep Bd cfg .dm c k rng = o at h1 h2 h3 h4 h5
+      simp only [h1, h4, Option.isNone_some, Bool.false_eq_true, ↓reduceIte]
+      exact ih o.core o.rng _ _ (by rw [h2]; exact hdrop') (by rw [h3]; exact hb) h4 hff'
+        (by rw [h5, hmix, noteMixed_mixedOf])
+
+theorem coreRun_dm_refuses (Bd : Backend V P) (cfg : Cfg) (hd : cfg.dmRefuse = true) (c : Circuit)
+    (hc : c.Valid) (hff : ¬ FF [] c.ops) (bits0 : Option (List Int)) (hb : BitsOk c.ncb bits0) (v0 : V)
+    (mr : Option (List Int)) (rng : List Int) :
+    (coreRun Bd cfg .dm c bits0 v0 mr rng).res = .error .notimpl := by
+  have := coreRunLoop_dm_refuses Bd cfg hd c hc c.ops ⟨bits0, fields0 v0 mr⟩ rng v0 []
+    (by simp [fields0]) hb rfl hff (by simp [fields0, mixedOf])
+  unfold coreRun
+  simp only [this]
+
+/-- **dm_eq_mixture (no gate reads an EARLIER-written bit).** For a well-formed circuit the density-matrix run of the
+model from `|ψ⟩⟨ψ|` ends — without exception, with probability `1` — in `Σ_r p_r · |φ_r⟩⟨φ_r|` over all records `r`,
+where `(φ_r, p_r)` is the branch of `r` (pruned branches weigh `0`); with or without fix C02-3. -/
+theorem coreRun_dm_eq_mixture_ff (Bs : Backend Q P) (Bd : Backend V P) (dm : Q → V) (L : DmLink Bs Bd dm)
+    (cfg : Cfg) (c : Circuit) (hc : c.Valid) (hff : FF [] c.ops)
     (bits0 : Option (List Int)) (hb : BitsOk c.ncb bits0) (q0 : Q) (mr : Option (List Int)) (rng : List Int) :
     (coreRun Bd cfg .dm c bits0 (dm q0) mr rng).res =
       .ok (some (((records c.numMeas).map (fun r =>
         (branchEntry Bs c bits0 q0 r).2.1 • dmOpt dm (branchEntry Bs c bits0 q0 r).1)).sum), 1) := by
-  obtain ⟨he, hst, hprob⟩ := coreRunLoop_dm Bs Bd dm L cfg c hc c.ops ⟨bits0, fields0 (dm q0) mr⟩ rng (dm q0)
-    (by simp [fields0]) hb rfl
+  obtain ⟨he, hst, hprob⟩ := coreRunLoop_dm Bs Bd dm L cfg c hc c.ops ⟨bits0, fields0 (dm q0) mr⟩ rng (dm q0) []
+    (by simp [fields0]) hb rfl hff (by simp [fields0, mixedOf])
   -- the final read of `.state` does nothing in density-matrix mode (`_state` is a Qobj)
   have hform : ∀ (n : Nat) (k : Core V P) (rng : List Int), k.f.form = .qobj →
       (coreRunLoop Bd cfg .dm c n k rng).core.f.form = .qobj := by
@@ -440,8 +650,8 @@ theorem coreRun_dm_eq_mixture (Bs : Backend Q P) (Bd : Backend V P) (dm : Q → 
     apply List.map_congr_left
     intro r hr
     have hrec := records_isRecord c r hr
-    have := weight_brRun Bs Bd dm L bits0 reads c.ops ⟨bits0, some q0, 1, r⟩ hff rfl (fun _ _ _ => rfl)
-      (by rw [← numMeas_eq]; exact hrec.1)
+    have := weight_brRun_ff Bs Bd dm L bits0 c.nq c.ncb c.ops ⟨bits0, some q0, 1, r⟩ [] hff hc rfl
+      (fun _ _ _ => rfl) (by rw [← numMeas_eq]; exact hrec.1)
     simp only [branchEntry, branch]
     unfold weight at this
     rw [this]
@@ -451,5 +661,15 @@ theorem coreRun_dm_eq_mixture (Bs : Backend Q P) (Bd : Backend V P) (dm : Q → 
   have hg : getter cfg o.core.f = (o.core.f, none) := by
     unfold getter; rw [hst]; simp only [hq]
   simp only [he, hg, hst, hprob, hsum, fields0]
+
+/-- the version with a position-insensitive hypothesis (kept: `Props/C02.dm_eq_mixture_partial`) -/
+theorem coreRun_dm_eq_mixture (Bs : Backend Q P) (Bd : Backend V P) (dm : Q → V) (L : DmLink Bs Bd dm)
+    (cfg : Cfg) (c : Circuit) (hc : c.Valid) (reads : Int → Prop) (hff : NoFeedForward c.ops reads)
+    (bits0 : Option (List Int)) (hb : BitsOk c.ncb bits0) (q0 : Q) (mr : Option (List Int)) (rng : List Int) :
+    (coreRun Bd cfg .dm c bits0 (dm q0) mr rng).res =
+      .ok (some (((records c.numMeas).map (fun r =>
+        (branchEntry Bs c bits0 q0 r).2.1 • dmOpt dm (branchEntry Bs c bits0 q0 r).1)).sum), 1) :=
+  coreRun_dm_eq_mixture_ff Bs Bd dm L cfg c hc
+    (FF_of_noFeedForward reads c.ops [] hff (fun _ h => by cases h)) bits0 hb q0 mr rng
 
 end QipVerif.Sim
